@@ -151,7 +151,10 @@ func (a *augmenter) Apply(cursor *astutil.Cursor) bool {
 			// "..." stands for a run of elements of a list. The only
 			// place where it may be a lone expression is the header
 			// of a "for ..." statement.
-			_, forHeader := cursor.Parent().(*ast.ForStmt)
+			// That is "for ... {": a header with an init or a post
+			// statement is an ordinary three-clause header.
+			forStmt, isFor := cursor.Parent().(*ast.ForStmt)
+			forHeader := isFor && forStmt.Init == nil && forStmt.Post == nil
 			if cursor.Index() < 0 && !forHeader {
 				a.errf(n.Pos(), `found unexpected "..." inside %T`, cursor.Parent())
 				return false
